@@ -178,7 +178,11 @@ def build(run: Run):
         f"implies(old({hit['dg']}), {hit['dg']})", f"implies(node is imports_of({P})[ghost_int('w_dg')] and ghost_int('w_dot') < _i, {hit['dg']})"]
     extra_inv[("analysis.UnsafeImportsML", 2)] = common_inv + [f"implies(old({hit['dg']}), {hit['dg']})"]
     extra_inv[("analysis.BadCalls", 0)] = common_inv + [f"implies(ghost_int('w_bc') < _i, {hit['bc']})"]
-    extra_inv[("analysis.OvertlyBadEvals", 0)] = common_inv + ["likely_safe_set_is_not(context, reported_calls)", f"implies(ghost_int('w_uc') < _i, {hit['uc']})"]
+    extra_inv[("analysis.OvertlyBadEvals", 0)] = common_inv + ["likely_safe_set_is_not(context, reported_calls)",
+                                                                # the analysis's own de-duplication set only ever grows together with a LIKELY_UNSAFE finding:
+                                                                # a call skipped because its text is already there has an equal finding behind it
+                                                                "set_empty(reported_calls) or has_rank(yielded(), 3)",
+                                                                f"implies(ghost_int('w_uc') < _i, {hit['uc']})"]
     for cls in run.repo.live["analysis_all"]:
         for i in range(4):
             extra_inv.setdefault((cls, i), list(common_inv))
